@@ -1,10 +1,11 @@
 package main
 
 import (
+	"fmt"
+	"github.com/biogo/biogo/feat"
 	"io/ioutil"
 	"log"
 	"math"
-	"fmt"
 	"sort"
 	"strings"
 
@@ -226,7 +227,11 @@ func c16Case(r *obs.Run, i int) {
 	if coordIDs {
 		r.Count("cases_with_coordinate_derived_ids", 1)
 	}
-	contigs := []pals.Contig{"c0", "c1", "c2"}
+	contigs := []feat.Feature{pals.Contig("c0"), pals.Contig("c1"), pals.Contig("c2")}
+	if rng.Intn(4) == 0 { // locations that differ although they carry one name: what counts is the location, not how it is called
+		contigs = []feat.Feature{pals.Contig("c0"), &pals.Feature{ID: "c0", From: 0, To: 1 << 20}, &pals.Feature{ID: "c0", From: 0, To: 1 << 20}}
+		r.Count("cases_with_distinct_locations_of_one_name", 1)
+	}
 	w := map[string]interface{}{"pairs": pairs}
 	fail := func(class, what string, extra interface{}) {
 		w["what"] = what
@@ -345,7 +350,7 @@ func c16Case(r *obs.Run, i int) {
 			fb := &pals.Feature{ID: c16Name(coordIDs, idx, 'B', q.B), From: q.B.S, To: q.B.E, Loc: contigs[q.B.Loc]}
 			fp := &pals.Pair{A: fa, B: fb, Score: q.Score}
 			if variant {
-				fa.ID, fb.ID, fp.Score = "again-"+fa.ID, string(contigs[q.B.Loc]), q.Score+1+rng.Intn(5)
+				fa.ID, fb.ID, fp.Score = "again-"+fa.ID, contigs[q.B.Loc].Name(), q.Score+1+rng.Intn(5)
 			}
 			if swap {
 				fp.A, fp.B = fb, fa
